@@ -42,7 +42,6 @@ func runC07(c *Ctx) {
 	fname := sqlPkgRel + ".(*Persister).GetRelationTuples"
 	var orderCol, orderDir, cursorCol, cursorOp, cursorArg, limitExpr string
 	var limitBase string
-	var limitBaseE ast.Expr
 	ast.Inspect(fd.Body, func(n ast.Node) bool {
 		call, ok := n.(*ast.CallExpr)
 		if !ok {
@@ -70,7 +69,7 @@ func runC07(c *Ctx) {
 		case "Limit":
 			limitExpr = canonExpr(call.Args[0])
 			if base, k, ok := plusConst(info, call.Args[0]); ok && k == 1 {
-				limitBase, limitBaseE = canonExpr(base), base
+				limitBase = canonExpr(base)
 			}
 		}
 		return true
@@ -88,110 +87,10 @@ func runC07(c *Ctx) {
 			}
 		}
 	}
-	// has-more branch, matched structurally (names, parentheses, operand order and
-	// branch polarity do not matter): the assignment of the next token is control
-	// dependent on len(V) > B; in the same branch V is cut to V[:len(V)-1] (or
-	// V[:B]); the token is read from V[len(V)-1] (or V[B-1]).
-	var hasMoreBase, truncExpr, tokenField, tokenIndex string
-	var hasMoreE, rowsV ast.Expr
-	truncOK, tokIdxOK := false, false
-	tokenAssigns, tokenAssignsInBranch := 0, 0
-	var resultTok types.Object
-	if fd.Type.Results != nil {
-		for _, fl := range fd.Type.Results.List {
-			for _, nm := range fl.Names {
-				if isStringT2(info.TypeOf(fl.Type)) {
-					resultTok = info.Defs[nm]
-				}
-			}
-		}
-	}
-	// the guard "len(V) > B" as seen from a statement
-	hasMoreGuard := func(st ast.Node) (v, b ast.Expr, cond ast.Expr, ok bool) {
-		for _, g := range guardsOf(fd.Body, st) {
-			op, x, y, isCmp := cmpParts(info, g.Cond)
-			if !isCmp {
-				continue
-			}
-			if !g.True {
-				op, _ = negTok(op)
-			}
-			if c, isCall := x.(*ast.CallExpr); isCall && op == token.GTR && len(c.Args) == 1 {
-				if id, isID := unparen(c.Fun).(*ast.Ident); isID && id.Name == "len" {
-					return unparen(c.Args[0]), y, g.Cond, true
-				}
-			}
-			if c, isCall := y.(*ast.CallExpr); isCall && op == token.LSS && len(c.Args) == 1 {
-				if id, isID := unparen(c.Fun).(*ast.Ident); isID && id.Name == "len" {
-					return unparen(c.Args[0]), x, g.Cond, true
-				}
-			}
-		}
-		return nil, nil, nil, false
-	}
-	var hasMoreCond ast.Expr
-	ast.Inspect(fd.Body, func(n ast.Node) bool {
-		as, ok := n.(*ast.AssignStmt)
-		if !ok {
-			return true
-		}
-		for i, l := range as.Lhs {
-			if resultTok == nil || objOf(info, l) != resultTok || i >= len(as.Rhs) {
-				continue
-			}
-			tokenAssigns++
-			v, b, cond, ok := hasMoreGuard(as)
-			if !ok {
-				continue
-			}
-			tokenAssignsInBranch++
-			rowsV, hasMoreE, hasMoreCond = v, b, cond
-			hasMoreBase = canonExpr(b)
-			ast.Inspect(as.Rhs[i], func(n3 ast.Node) bool {
-				se, ok := n3.(*ast.SelectorExpr)
-				if !ok {
-					return true
-				}
-				ix, ok := unparen(se.X).(*ast.IndexExpr)
-				if !ok || !sameExpr(info, ix.X, v) {
-					return true
-				}
-				tokenField, tokenIndex = se.Sel.Name, canonExpr(ix.Index)
-				if base, k, ok := minusConst(info, ix.Index); ok && k == 1 && (isLenOf(info, base, v) || sameExpr(info, base, b)) {
-					tokIdxOK = true
-				}
-				return true
-			})
-		}
-		return true
-	})
-	if rowsV != nil {
-		ast.Inspect(fd.Body, func(n ast.Node) bool {
-			as, ok := n.(*ast.AssignStmt)
-			if !ok {
-				return true
-			}
-			for i, rhs := range as.Rhs {
-				sl, ok := unparen(rhs).(*ast.SliceExpr)
-				if !ok || i >= len(as.Lhs) || !sameExpr(info, sl.X, rowsV) || !sameExpr(info, as.Lhs[i], rowsV) {
-					continue
-				}
-				if _, _, cond, ok := hasMoreGuard(as); !ok || cond != hasMoreCond {
-					continue
-				}
-				truncExpr = canonExpr(sl)
-				if sl.Low == nil && sl.High != nil {
-					if base, k, ok := minusConst(info, sl.High); ok && k == 1 && isLenOf(info, base, rowsV) {
-						truncOK = true
-					} else if sameExpr(info, sl.High, hasMoreE) {
-						truncOK = true
-					}
-				}
-			}
-			return true
-		})
-	}
-	limitOK := limitBaseE != nil && hasMoreE != nil && sameExpr(info, limitBaseE, hasMoreE)
+	// has-more branch: decided on the SSA form, through helpers the logic may have been
+	// extracted into (hasMore below)
+	hm := hasMore(c)
+	tokenField := hm.tokenField
 	tokCol := m.ColOfField[tokenField]
 	var bad []string
 	if orderCol == "" || cursorCol == "" || tokCol == "" {
@@ -212,25 +111,13 @@ func runC07(c *Ctx) {
 	if limitBase == "" {
 		bad = append(bad, "LIMIT is "+limitExpr+", not <page size> + 1: has-more cannot be detected (or rows are lost)")
 	}
-	if hasMoreBase == "" {
-		bad = append(bad, "no has-more branch 'len(rows) > <page size>' that assigns the next token")
-	} else if !limitOK {
-		bad = append(bad, fmt.Sprintf("LIMIT is %s but has-more compares len(rows) with %s: for page sizes where they differ a full page has no token or a short page has one", limitExpr, hasMoreBase))
-	}
-	if !truncOK {
-		bad = append(bad, "the has-more branch truncates with "+truncExpr+", which is not 'drop exactly the extra row'")
-	}
-	if !tokIdxOK {
-		bad = append(bad, "the next token is taken from index "+tokenIndex+", not from the last kept row")
-	}
-	if tokenAssigns != tokenAssignsInBranch || tokenAssigns != 1 {
-		bad = append(bad, fmt.Sprintf("the next-page token is assigned %d time(s), %d inside the has-more branch", tokenAssigns, tokenAssignsInBranch))
-	}
+	bad = append(bad, hm.bad...)
 	r.Check(len(bad) == 0, "R07.1", fname, "keyset cursor", p.Pos(fd.Pos()),
-		fmt.Sprintf("ORDER BY %s, %s %s ? bound to %s, LIMIT %s, has-more len(rows) > %s, token from %s of the last kept row", orderCol, cursorCol, cursorOp, cursorArg, limitExpr, hasMoreBase, tokenField),
+		fmt.Sprintf("ORDER BY %s, %s %s ? bound to %s, LIMIT %s, %s", orderCol, cursorCol, cursorOp, cursorArg, limitExpr, hm.desc),
 		strings.Join(bad, "; "))
-	// order of truncation and token: the truncation must precede the token read
-	r071order(c, fd, fname)
+	// order of truncation and token: the token is read from the rows as they are after the truncation
+	r.Check(hm.orderOK, "R07.1", fname, "truncate before taking the token", p.Pos(fd.Pos()),
+		"the extra row is dropped before the token is read from the last row", "the next token is read before the extra row is dropped: the token names the dropped row, which the next page then skips")
 
 	// ---- R07.2 traversal paging
 	for _, rs := range m.Raw {
@@ -360,30 +247,6 @@ func isStringT2(t types.Type) bool {
 }
 
 // r071order: in the has-more branch the truncation precedes the token read.
-func r071order(c *Ctx, fd *ast.FuncDecl, fname string) {
-	p, r := c.P, c.R
-	var truncPos, tokPos token.Pos
-	ast.Inspect(fd.Body, func(n ast.Node) bool {
-		as, ok := n.(*ast.AssignStmt)
-		if !ok {
-			return true
-		}
-		for i := range as.Lhs {
-			if i >= len(as.Rhs) {
-				break
-			}
-			if _, ok := unparen(as.Rhs[i]).(*ast.SliceExpr); ok {
-				truncPos = as.Pos()
-			}
-			if call, ok := unparen(as.Rhs[i]).(*ast.CallExpr); ok && strings.Contains(canonExpr(call.Fun), "encodeNextPageToken") {
-				tokPos = as.Pos()
-			}
-		}
-		return true
-	})
-	r.Check(truncPos.IsValid() && tokPos.IsValid() && truncPos < tokPos, "R07.1", fname, "truncate before taking the token", p.Pos(tokPos),
-		"the extra row is dropped before the token is read from the last row", "the next token is read before the extra row is dropped: the token names the dropped row, which the next page then skips")
-}
 
 // ---- R07.3 page size / token defaults -----------------------------------------------------------
 
@@ -1223,4 +1086,437 @@ func onePageOneStatement(c *Ctx, rule string) {
 	}
 	r.Check(len(sites) == 1, rule, core.FuncName(root), "statements per page", p.Pos(root.Pos()),
 		"one page is answered by exactly one statement", fmt.Sprintf("GetRelationTuples executes %d statements per page (%s): the additional one makes the answer depend on rows outside the page (a token pointing at a row deleted meanwhile is rejected)", len(sites), strings.Join(sites, "; ")))
+}
+
+// ---- R07.1 has-more, on SSA --------------------------------------------------------------------------
+
+type hasMoreResult struct {
+	bad        []string
+	desc       string
+	tokenField string
+	orderOK    bool
+}
+
+// hasMore decides the has-more clause of R07.1 for GetRelationTuples: the rows fetched by
+// query.All(&rows) are cut by exactly the look-ahead row (rows[:len(rows)-1], or rows[:B]) where
+// len(rows) > B holds, B being the PerPage of the pagination whose PerPage+1 is the LIMIT; the next
+// token is encodeNextPageToken(kept[len(kept)-1].ID) of the rows as they are after the cut, under the
+// same condition; every other token the function returns is ""; and the cut rows are what the
+// function goes on with. The cut and the token may sit in a helper of the package that is handed
+// the rows (its parameters stand for the arguments of that call).
+func hasMore(c *Ctx) hasMoreResult {
+	p := c.P
+	res := hasMoreResult{}
+	fail := func(f string, a ...any) hasMoreResult {
+		res.bad = append(res.bad, fmt.Sprintf(f, a...))
+		return res
+	}
+	g := p.Func("(*" + sqlPkgRel + ".Persister).GetRelationTuples")
+	if g == nil || g.Blocks == nil {
+		return fail("GetRelationTuples not found in the SSA program")
+	}
+	// the rows: the cell handed to All
+	var rowsCell *ssa.Alloc
+	var limitArg ssa.Value
+	core.Instrs(g, func(_ *ssa.BasicBlock, _ int, ins ssa.Instruction) {
+		call, ok := ins.(*ssa.Call)
+		if !ok {
+			return
+		}
+		obj := core.CalleeObj(call.Common())
+		if obj == nil || obj.Pkg() == nil || obj.Pkg().Path() != "github.com/gobuffalo/pop/v6" {
+			return
+		}
+		switch obj.Name() {
+		case "All":
+			for _, a := range call.Common().Args {
+				if al, ok := core.Unwrap(a).(*ssa.Alloc); ok {
+					rowsCell = al
+				}
+			}
+		case "Limit":
+			limitArg = call.Common().Args[len(call.Common().Args)-1]
+		}
+	})
+	if rowsCell == nil {
+		return fail("cannot find the slice the statement's rows are read into (query.All(&rows))")
+	}
+	type scope struct {
+		fn   *ssa.Function
+		bind map[*ssa.Parameter]ssa.Value // helper parameter -> argument in GetRelationTuples
+		call *ssa.Call
+	}
+	// resolve a value of a scope to a value of GetRelationTuples
+	var inG func(v ssa.Value, sc scope) ssa.Value
+	inG = func(v ssa.Value, sc scope) ssa.Value {
+		o := core.ValueOrigin(v)
+		if par, ok := o.(*ssa.Parameter); ok && sc.bind != nil {
+			if a, ok := sc.bind[par]; ok {
+				return core.ValueOrigin(a)
+			}
+		}
+		return o
+	}
+	isRows := func(v ssa.Value, sc scope) bool {
+		// a load of the cell (the cell is written through the pointer handed to All, so the
+		// loads are not resolved to what the function itself stores there)
+		if u, ok := v.(*ssa.UnOp); ok && u.Op == token.MUL && u.X == ssa.Value(rowsCell) {
+			return true
+		}
+		if par, ok := v.(*ssa.Parameter); ok && sc.bind != nil {
+			if a, ok := sc.bind[par]; ok {
+				if u, ok := a.(*ssa.UnOp); ok && u.Op == token.MUL && u.X == ssa.Value(rowsCell) {
+					return true
+				}
+			}
+		}
+		o := inG(v, sc)
+		if u, ok := o.(*ssa.UnOp); ok && u.Op == token.MUL && u.X == ssa.Value(rowsCell) {
+			return true
+		}
+		return o == ssa.Value(rowsCell)
+	}
+	scopes := []scope{{fn: g}}
+	core.Instrs(g, func(_ *ssa.BasicBlock, _ int, ins ssa.Instruction) {
+		call, ok := ins.(*ssa.Call)
+		if !ok {
+			return
+		}
+		h := call.Common().StaticCallee()
+		if h == nil || h.Blocks == nil || core.FuncPkg(h) == nil || core.FuncPkg(h).Path() != sqlPkgPath {
+			return
+		}
+		handed := false
+		bind := map[*ssa.Parameter]ssa.Value{}
+		for i, a := range call.Common().Args {
+			if i < len(h.Params) {
+				bind[h.Params[i]] = a
+				if isRows(a, scope{fn: g}) {
+					handed = true
+				}
+			}
+		}
+		if handed {
+			scopes = append(scopes, scope{h, bind, call})
+		}
+	})
+	lenOf := func(v ssa.Value) ssa.Value {
+		if lc, ok := v.(*ssa.Call); ok {
+			if bi, ok := lc.Call.Value.(*ssa.Builtin); ok && bi.Name() == "len" && len(lc.Call.Args) == 1 {
+				return lc.Call.Args[0]
+			}
+		}
+		return nil
+	}
+	// the PerPage of a pagination object: (object in G's terms, ok)
+	perPageOf := func(v ssa.Value, sc scope) (ssa.Value, bool) {
+		u, ok := core.ValueOrigin(v).(*ssa.UnOp)
+		if !ok || u.Op != token.MUL {
+			return nil, false
+		}
+		fa, ok := u.X.(*ssa.FieldAddr)
+		if !ok || fieldVarOf(fa) == nil || fieldVarOf(fa).Name() != "PerPage" {
+			return nil, false
+		}
+		return inG(fa.X, sc), true
+	}
+	// the has-more condition holding at a block: len(rows) > B; returns B's pagination object
+	hasMoreAt := func(b *ssa.BasicBlock, sc scope) (ssa.Value, ssa.Value, bool) {
+		for _, cd := range core.CondsAt(b) {
+			op, x, y, ok := cd.Holds()
+			if !ok {
+				continue
+			}
+			if op == token.LSS {
+				op, x, y = token.GTR, y, x
+			}
+			if op != token.GTR {
+				continue
+			}
+			if l := lenOf(x); l != nil && isRows(l, sc) {
+				if obj, ok := perPageOf(y, sc); ok {
+					return obj, y, true
+				}
+			}
+		}
+		return nil, nil, false
+	}
+	// the cut
+	type cut struct {
+		t       *ssa.Slice
+		sc      scope
+		obj     ssa.Value
+		bVal    ssa.Value
+		dropOne bool
+	}
+	var cuts []cut
+	for _, sc := range scopes {
+		core.Instrs(sc.fn, func(b *ssa.BasicBlock, _ int, ins ssa.Instruction) {
+			t, ok := ins.(*ssa.Slice)
+			if !ok || !isRows(t.X, sc) || t.High == nil {
+				return
+			}
+			if _, isRowsT := t.Type().Underlying().(*types.Slice); !isRowsT {
+				return
+			}
+			cuts = append(cuts, cut{t: t, sc: sc})
+		})
+	}
+	if len(cuts) == 0 {
+		return fail("no has-more branch 'len(rows) > <page size>' that drops the look-ahead row and assigns the next token")
+	}
+	if len(cuts) > 1 {
+		return fail("the rows are cut in %d places (%s, %s, ...): not 'drop exactly the extra row'", len(cuts), p.Pos(cuts[0].t.Pos()), p.Pos(cuts[1].t.Pos()))
+	}
+	ct := cuts[0]
+	obj, bVal, okHM := hasMoreAt(ct.t.Block(), ct.sc)
+	if !okHM {
+		return fail("the rows are cut at %s, but not on a branch where len(rows) > <page size> holds: a full page loses a row or a short page gets a token", p.Pos(ct.t.Pos()))
+	}
+	ct.obj, ct.bVal = obj, bVal
+	if k, isK := core.IntConst(ct.t.Low); ct.t.Low != nil && !(isK && k == 0) {
+		res.bad = append(res.bad, "the has-more branch cuts the rows from a non-zero start: rows of the page are dropped")
+	}
+	truncOK := false
+	if sub, ok := ct.t.High.(*ssa.BinOp); ok && sub.Op == token.SUB {
+		if k, isK := core.IntConst(sub.Y); isK && k == 1 {
+			if l := lenOf(sub.X); l != nil && isRows(l, ct.sc) {
+				truncOK, ct.dropOne = true, true
+			}
+		}
+	}
+	if o2, ok := perPageOf(ct.t.High, ct.sc); ok && o2 == obj {
+		truncOK = true
+	}
+	if !truncOK {
+		res.bad = append(res.bad, "the has-more branch truncates with "+ct.t.String()+", which is not 'drop exactly the extra row'")
+	}
+	// LIMIT is that PerPage + 1
+	limitOK := false
+	if add, ok := limitArg.(*ssa.BinOp); ok && add.Op == token.ADD {
+		for _, pair := range [][2]ssa.Value{{add.X, add.Y}, {add.Y, add.X}} {
+			if k, isK := core.IntConst(pair[1]); isK && k == 1 {
+				if o2, ok := perPageOf(pair[0], scope{fn: g}); ok && o2 == obj {
+					limitOK = true
+				}
+			}
+		}
+	}
+	if !limitOK {
+		res.bad = append(res.bad, "LIMIT is not the has-more threshold + 1 (the PerPage the rows are compared with is not the one the statement is limited by): for page sizes where they differ a full page has no token or a short page has one")
+	}
+	// the kept rows: the cut itself, or a load of a cell that only the store of the cut reaches
+	isKept := func(v ssa.Value) bool {
+		if v == ssa.Value(ct.t) || core.ValueOrigin(v) == ssa.Value(ct.t) {
+			return true
+		}
+		ld, ok := v.(*ssa.UnOp)
+		if !ok || ld.Op != token.MUL {
+			return false
+		}
+		cell, ok := ld.X.(*ssa.Alloc)
+		if !ok {
+			return false
+		}
+		nReach, cutReaches := 0, false
+		for _, st := range core.CellStores(cell) {
+			if st.Parent() != ld.Parent() {
+				continue
+			}
+			if core.StoreReachesLoad(st, cell, ld) {
+				nReach++
+				if st.Val == ssa.Value(ct.t) {
+					cutReaches = true
+				}
+			}
+		}
+		return cutReaches && nReach == 1
+	}
+	// the token
+	var encodes []*ssa.Call
+	encOK := map[*ssa.Call]bool{}
+	readsUncut := false
+	core.Instrs(ct.sc.fn, func(b *ssa.BasicBlock, _ int, ins ssa.Instruction) {
+		call, ok := ins.(*ssa.Call)
+		if !ok || call.Common().StaticCallee() == nil || call.Common().StaticCallee().Name() != "encodeNextPageToken" {
+			return
+		}
+		encodes = append(encodes, call)
+		arg := call.Common().Args[len(call.Common().Args)-1]
+		u, ok := arg.(*ssa.UnOp)
+		if !ok {
+			return
+		}
+		fa, ok := u.X.(*ssa.FieldAddr)
+		if !ok || fieldVarOf(fa) == nil {
+			return
+		}
+		res.tokenField = fieldVarOf(fa).Name()
+		el, ok := fa.X.(*ssa.UnOp)
+		if !ok {
+			return
+		}
+		ia, ok := el.X.(*ssa.IndexAddr)
+		if !ok {
+			return
+		}
+		if !isKept(ia.X) {
+			if isRows(ia.X, ct.sc) {
+				readsUncut = true
+			}
+			return
+		}
+		idxOK := false
+		if sub, ok := ia.Index.(*ssa.BinOp); ok && sub.Op == token.SUB {
+			if k, isK := core.IntConst(sub.Y); isK && k == 1 {
+				if l := lenOf(sub.X); l != nil && isKept(l) {
+					idxOK = true
+				}
+				if o2, ok := perPageOf(sub.X, ct.sc); ok && o2 == obj && !ct.dropOne {
+					idxOK = true
+				}
+			}
+		}
+		if _, _, under := hasMoreAt(b, ct.sc); idxOK && under {
+			encOK[call] = true
+		}
+	})
+	res.orderOK = !readsUncut
+	if len(encodes) == 0 {
+		res.bad = append(res.bad, "no next-page token is computed where the rows are cut")
+	}
+	for _, e := range encodes {
+		if !encOK[e] && !readsUncut {
+			res.bad = append(res.bad, "the next token at "+p.Pos(e.Pos())+" is not taken from the last kept row (kept[len(kept)-1]) on the has-more branch")
+		}
+	}
+	// every token GetRelationTuples returns is "" or that token
+	var tokenVals []ssa.Value
+	tokIdx := -1
+	for i := 0; i < g.Signature.Results().Len(); i++ {
+		if isStringT2(g.Signature.Results().At(i).Type()) {
+			tokIdx = i
+		}
+	}
+	core.Instrs(g, func(b *ssa.BasicBlock, _ int, ins ssa.Instruction) {
+		ret, ok := ins.(*ssa.Return)
+		if !ok || b == g.Recover || tokIdx < 0 || tokIdx >= len(ret.Results) {
+			return
+		}
+		v := ret.Results[tokIdx]
+		if ld, ok := v.(*ssa.UnOp); ok && ld.Op == token.MUL {
+			if cell, ok := ld.X.(*ssa.Alloc); ok {
+				for _, st := range core.CellStores(cell) {
+					tokenVals = append(tokenVals, st.Val)
+				}
+				return
+			}
+		}
+		tokenVals = append(tokenVals, v)
+	})
+	nTok := 0
+	seen := map[ssa.Value]bool{}
+	var leaves func(v ssa.Value, depth int)
+	leaves = func(v ssa.Value, depth int) {
+		v = core.ValueOrigin(v)
+		if v == nil || seen[v] || depth > 6 {
+			return
+		}
+		seen[v] = true
+		switch x := v.(type) {
+		case *ssa.Const:
+			if x.Value == nil || x.Value.ExactString() != `""` {
+				res.bad = append(res.bad, "a constant other than \"\" is returned as the next-page token")
+			}
+		case *ssa.Phi:
+			for _, e := range x.Edges {
+				leaves(e, depth+1)
+			}
+		case *ssa.Call:
+			if encOK[x] {
+				nTok++
+				return
+			}
+			res.bad = append(res.bad, "the next-page token comes from "+x.String()+" at "+p.Pos(x.Pos())+", which is not the token of the last kept row")
+		case *ssa.Extract:
+			call, ok := x.Tuple.(*ssa.Call)
+			if !ok || call.Common().StaticCallee() == nil || call.Common().StaticCallee() != ct.sc.fn || ct.sc.call != call {
+				res.bad = append(res.bad, "the next-page token comes from "+x.String()+", which is not the helper that cuts the rows")
+				return
+			}
+			core.Instrs(ct.sc.fn, func(_ *ssa.BasicBlock, _ int, ins ssa.Instruction) {
+				if ret, ok := ins.(*ssa.Return); ok && x.Index < len(ret.Results) {
+					leaves(ret.Results[x.Index], depth+1)
+				}
+			})
+		default:
+			res.bad = append(res.bad, "the next-page token has an unrecognised origin "+v.String())
+		}
+	}
+	for _, v := range tokenVals {
+		leaves(v, 0)
+	}
+	if nTok == 0 && len(encodes) > 0 {
+		res.bad = append(res.bad, "the token computed on the has-more branch is not what GetRelationTuples returns")
+	}
+	// the cut rows are what the function goes on with
+	goesOn := false
+	seenF := map[ssa.Value]bool{}
+	var fwd func(v ssa.Value, depth int)
+	fwd = func(v ssa.Value, depth int) {
+		if v == nil || seenF[v] || depth > 8 || v.Referrers() == nil {
+			return
+		}
+		seenF[v] = true
+		for _, ref := range *v.Referrers() {
+			switch x := ref.(type) {
+			case *ssa.Store:
+				if x.Val != v {
+					continue
+				}
+				if x.Addr == ssa.Value(rowsCell) {
+					goesOn = true
+					continue
+				}
+				if cell, ok := x.Addr.(*ssa.Alloc); ok {
+					for _, ld := range core.CellLoads(cell) {
+						fwd(ld, depth+1)
+					}
+				}
+			case *ssa.Phi:
+				fwd(x, depth+1)
+			case *ssa.Return:
+				if ct.sc.call != nil && ct.sc.call.Referrers() != nil {
+					for i, rv := range x.Results {
+						if rv != v {
+							continue
+						}
+						for _, r2 := range *ct.sc.call.Referrers() {
+							if ex, ok := r2.(*ssa.Extract); ok && ex.Index == i {
+								fwd(ex, depth+1)
+							}
+						}
+					}
+				}
+			case *ssa.Call:
+				if x.Parent() == g {
+					goesOn = true // handed to the conversion
+				}
+			case *ssa.Range, *ssa.IndexAddr:
+				if ref.Parent() == g {
+					goesOn = true
+				}
+			}
+		}
+	}
+	fwd(ct.t, 0)
+	if !goesOn {
+		res.bad = append(res.bad, "the rows cut on the has-more branch are not the rows the function goes on to return")
+	}
+	where := "in GetRelationTuples"
+	if ct.sc.call != nil {
+		where = "in " + core.FuncName(ct.sc.fn)
+	}
+	res.desc = fmt.Sprintf("has-more len(rows) > PerPage %s, the look-ahead row is dropped, token from %s of the last kept row", where, res.tokenField)
+	return res
 }
